@@ -96,11 +96,13 @@ def step' (s : St) (toks : List String) : St × List String :=
     | none => (s, ["bad-op"])
   | ["close"] => withDump (step s .close)
   | ["crash", d] => match d.toNat? with
-    | some d => plain (step s (.crash d))
+    | some d => plain (step s (.crash d false))
     | none => (s, ["bad-op"])
-  | ["recover", rows, off, ents] => match parseNatList? rows, off.toNat?, parseEnts ents with
-    | some rows, some off, some l => (s, [recover rows off l])
-    | _, _, _ => (s, ["bad-op"])
+  | ["write", _] => (s, ["ok"])   -- after a completed recovery the engine accepts and (fsbinlog commits) acknowledges a write
+  -- kill runs: last token = 1 if the binlog file ends with a torn record (cut off by the fixed writer: no difference)
+  | ["recover", rows, off, ents, torn] => match parseNatList? rows, off.toNat?, parseEnts ents, torn.toNat? with
+    | some rows, some off, some l, some _ => (s, [recover rows off l])
+    | _, _, _, _ => (s, ["bad-op"])
   | _ => (s, ["bad-op"])
 
 def main : IO Unit :=
